@@ -315,6 +315,30 @@ theorem arclen_inclusion_exclusion (x y x0 x1 y0 y1 r : ℝ) (hr : 0 < r)
   constructor <;> rintro ⟨h1, h2, h3, h4⟩ <;>
     exact ⟨by linarith, by linarith, by linarith, by linarith⟩
 
+/-! ### the same statements for the definitions the driver executes (Model/Arc.lean at ℝ) -/
+
+/-- the model's `circleCapArclen` (= `circle_cap_arclen`), at ℝ, is `r ·` the length of the cap
+interval `(-arccos (h/r), arccos (h/r))` of `cap_set` -/
+theorem model_cap_length (h r : ℝ) :
+    circleCapArclen h r = r * (arccos (h / r) - -arccos (h / r)) := by
+  rw [circleCapArclen_real, cap_length]
+
+/-- the model's `circleCornerArclen` (= `circle_corner_arclen`), at ℝ, is `r ·` the length of the
+corner interval `(arcsin (h2/r), arccos (h1/r))` of `corner_set` -/
+theorem model_corner_length (h1 h2 r : ℝ) :
+    circleCornerArclen h1 h2 r = r * (arccos (h1 / r) - arcsin (h2 / r)) := by
+  rw [circleCornerArclen_real, corner_length.1]
+
+/-- the model's `arclenRaw` (= `arclen_2d_bounded` before the NaN guard: the very definition the
+driver runs at `Float`), at ℝ, is `r ·` the total length of the directions inside the box — for
+every centre in the closed box and EVERY radius -/
+theorem model_arclen_exact (x y x0 x1 y0 y1 r : ℝ) (hr : 0 < r)
+    (hx0 : x0 ≤ x) (hx1 : x ≤ x1) (hy0 : y0 ≤ y) (hy1 : y ≤ y1) :
+    arclenRaw (x - x0) (x1 - x) (y - y0) (y1 - y) r
+      = r * len (insideIntervals (x - x0) (x1 - x) (y - y0) (y1 - y) r) := by
+  rw [arclenRaw_real]
+  exact (arclen_inclusion_exclusion x y x0 x1 y0 y1 r hr hx0 hx1 hy0 hy1).2.2.2.symm
+
 /-- consequence: the code's value (before the NaN guard) is never negative -/
 theorem arclen2d_nonneg (hr : 0 < r) (hL0 : 0 ≤ hL) (hR0 : 0 ≤ hR) (hB0 : 0 ≤ hB)
     (hT0 : 0 ≤ hT) : 0 ≤ arclen2d hL hR hB hT r := by
@@ -325,6 +349,14 @@ theorem arclen2d_nonneg (hr : 0 < r) (hL0 : 0 ≤ hL) (hR0 : 0 ≤ hR) (hB0 : 0 
   linarith [this (-π + arcsin (hB / r) - (-π + arccos (hL / r))),
     this (-arccos (hR / r) - -arcsin (hB / r)), this (arcsin (hT / r) - arccos (hR / r)),
     this (π - arccos (hL / r) - (π - arcsin (hT / r)))]
+
+/-- … and never exceeds the full circle -/
+theorem arclen2d_le_full (hr : 0 < r) (hL0 : 0 ≤ hL) (hR0 : 0 ≤ hR) (hB0 : 0 ≤ hB)
+    (hT0 : 0 ≤ hT) : arclen2d hL hR hB hT r ≤ 2 * π * r := by
+  rw [← len_insideIntervals hr hL0 hR0 hB0 hT0]
+  have := len_le_of_sorted (insideIntervals hL hR hB hT r) (-π) π (by linarith [pi_pos])
+    (insideIntervals_sorted _ _ _ _ _) (insideIntervals_range _ _ _ _ _)
+  nlinarith
 
 /-! ### non-vacuity: concrete values -/
 
